@@ -19,6 +19,7 @@ import (
 	_ "verifharness/mon/c16"
 	_ "verifharness/mon/c17"
 	_ "verifharness/mon/c19"
+	_ "verifharness/mon/c20"
 )
 
 func main() { rt.Main() }
